@@ -258,4 +258,11 @@ inductive WireEv where
   | created | updated | destroyed | bootstrapped | errored | noop | unknown
 deriving DecidableEq, Repr, Inhabited
 
+/-- qtransform.reconcileRunning: the condition under which the input finalizer is added -/
+inductive AddFinRule where
+  | whenMissing              -- `!Has(name)`
+  | whenMissingAndRunning    -- `!Has(name) && Phase == Running` (the tree before the D7 fix)
+  | unknown
+deriving DecidableEq, Repr, Inhabited
+
 end Cosi.Gen
